@@ -39,3 +39,138 @@ package codegen
 //@   at (*ModuleBuilder).AddBinaryOp assert [table] binary.Op == ir.BinaryLogicalOr ==> arg1 == OpLogicalOr
 //@   at (*ModuleBuilder).AddBinaryOp assert [table] binary.Op == ir.BinaryShiftLeft ==> arg1 == OpShiftLeftLogical
 //@   at (*ModuleBuilder).AddBinaryOp assert [table] binary.Op == ir.BinaryShiftRight ==> arg1 == ite(scalarKind == ir.ScalarSint, OpShiftRightArithmetic, OpShiftRightLogical)
+//
+// ---- SPIR-V numeric tables (C02, C17, C01) ------------------------------------
+//
+// The enumerant values below are taken from the SPIR-V specification (unified1,
+// sections 3.21 BuiltIn, 3.7 StorageClass, 3.3 ExecutionModel, 3.6 ExecutionMode,
+// 3.32 opcodes), not from this repository: a constant that drifts from the
+// specification fails its own obligation.
+//
+//@ consts C02 C17 C01
+//@ const OpIAdd 128
+//@ const OpFAdd 129
+//@ const OpISub 130
+//@ const OpFSub 131
+//@ const OpIMul 132
+//@ const OpFMul 133
+//@ const OpUDiv 134
+//@ const OpSDiv 135
+//@ const OpFDiv 136
+//@ const OpUMod 137
+//@ const OpSRem 138
+//@ const OpSMod 139
+//@ const OpFRem 140
+//@ const OpFMod 141
+//@ const OpVectorTimesScalar 142
+//@ const OpMatrixTimesScalar 143
+//@ const OpVectorTimesMatrix 144
+//@ const OpMatrixTimesVector 145
+//@ const OpMatrixTimesMatrix 146
+//@ const OpLogicalEqual 164
+//@ const OpLogicalNotEqual 165
+//@ const OpLogicalOr 166
+//@ const OpLogicalAnd 167
+//@ const OpIEqual 170
+//@ const OpINotEqual 171
+//@ const OpUGreaterThan 172
+//@ const OpSGreaterThan 173
+//@ const OpUGreaterThanEqual 174
+//@ const OpSGreaterThanEqual 175
+//@ const OpULessThan 176
+//@ const OpSLessThan 177
+//@ const OpULessThanEqual 178
+//@ const OpSLessThanEqual 179
+//@ const OpFOrdEqual 180
+//@ const OpFOrdNotEqual 182
+//@ const OpFOrdLessThan 184
+//@ const OpFOrdGreaterThan 186
+//@ const OpFOrdLessThanEqual 188
+//@ const OpFOrdGreaterThanEqual 190
+//@ const OpShiftRightLogical 194
+//@ const OpShiftRightArithmetic 195
+//@ const OpShiftLeftLogical 196
+//@ const OpBitwiseOr 197
+//@ const OpBitwiseXor 198
+//@ const OpBitwiseAnd 199
+//@ const BuiltInPosition 0
+//@ const BuiltInClipDistance 3
+//@ const BuiltInPrimitiveID 7
+//@ const BuiltInFragCoord 15
+//@ const BuiltInFrontFacing 17
+//@ const BuiltInSampleID 18
+//@ const BuiltInSampleMask 20
+//@ const BuiltInFragDepth 22
+//@ const BuiltInNumWorkgroups 24
+//@ const BuiltInWorkgroupID 26
+//@ const BuiltInLocalInvocationID 27
+//@ const BuiltInGlobalInvocationID 28
+//@ const BuiltInLocalInvocationIndex 29
+//@ const BuiltInSubgroupSize 36
+//@ const BuiltInNumSubgroups 38
+//@ const BuiltInSubgroupID 40
+//@ const BuiltInSubgroupLocalInvID 41
+//@ const BuiltInVertexIndex 42
+//@ const BuiltInInstanceIndex 43
+//@ const BuiltInViewIndex 4440
+//@ const BuiltInBaryCoordKHR 5286
+//@ const StorageClassUniformConstant 0
+//@ const StorageClassInput 1
+//@ const StorageClassUniform 2
+//@ const StorageClassOutput 3
+//@ const StorageClassWorkgroup 4
+//@ const StorageClassPrivate 6
+//@ const StorageClassFunction 7
+//@ const StorageClassPushConstant 9
+//@ const StorageClassStorageBuffer 12
+//@ const ExecutionModelVertex 0
+//@ const ExecutionModelFragment 4
+//@ const ExecutionModelGLCompute 5
+//@ const ExecutionModeOriginUpperLeft 7
+//@ const ExecutionModeDepthReplacing 12
+//@ const ExecutionModeLocalSize 17
+//
+// WGSL built-in value -> SPIR-V BuiltIn (WGSL spec 13.3 / Vulkan mapping):
+// position is Position as a vertex output and FragCoord as a fragment input.
+//
+//@ func builtinToSPIRV
+//@   mode bv
+//@   tags C17 C08
+//@   ensures [position-out] builtin == ir.BuiltinPosition && storageClass == StorageClassOutput ==> result == 0
+//@   ensures [position-in] builtin == ir.BuiltinPosition && storageClass != StorageClassOutput ==> result == 15
+//@   ensures [vertex-index] builtin == ir.BuiltinVertexIndex ==> result == 42
+//@   ensures [instance-index] builtin == ir.BuiltinInstanceIndex ==> result == 43
+//@   ensures [front-facing] builtin == ir.BuiltinFrontFacing ==> result == 17
+//@   ensures [frag-depth] builtin == ir.BuiltinFragDepth ==> result == 22
+//@   ensures [sample-index] builtin == ir.BuiltinSampleIndex ==> result == 18
+//@   ensures [sample-mask] builtin == ir.BuiltinSampleMask ==> result == 20
+//@   ensures [local-invocation-id] builtin == ir.BuiltinLocalInvocationID ==> result == 27
+//@   ensures [local-invocation-index] builtin == ir.BuiltinLocalInvocationIndex ==> result == 29
+//@   ensures [global-invocation-id] builtin == ir.BuiltinGlobalInvocationID ==> result == 28
+//@   ensures [workgroup-id] builtin == ir.BuiltinWorkGroupID ==> result == 26
+//@   ensures [num-workgroups] builtin == ir.BuiltinNumWorkGroups ==> result == 24
+//@   ensures [num-subgroups] builtin == ir.BuiltinNumSubgroups ==> result == 38
+//@   ensures [subgroup-id] builtin == ir.BuiltinSubgroupID ==> result == 40
+//@   ensures [subgroup-size] builtin == ir.BuiltinSubgroupSize ==> result == 36
+//@   ensures [subgroup-invocation-id] builtin == ir.BuiltinSubgroupInvocationID ==> result == 41
+//@   ensures [clip-distance] builtin == ir.BuiltinClipDistance ==> result == 3
+//@   ensures [primitive-index] builtin == ir.BuiltinPrimitiveIndex ==> result == 7
+//@   ensures [view-index] builtin == ir.BuiltinViewIndex ==> result == 4440
+//@   pure
+//@   nopanic
+//
+// WGSL address space -> SPIR-V storage class (Vulkan 1.1+: storage buffers use
+// StorageBuffer, uniform buffers Uniform, handles UniformConstant).
+//
+//@ func addressSpaceToStorageClass
+//@   mode bv
+//@   tags C17 C08
+//@   ensures [function] space == ir.SpaceFunction ==> result0 == 7 && result1 == nil
+//@   ensures [private] space == ir.SpacePrivate ==> result0 == 6 && result1 == nil
+//@   ensures [workgroup] space == ir.SpaceWorkGroup ==> result0 == 4 && result1 == nil
+//@   ensures [uniform] space == ir.SpaceUniform ==> result0 == 2 && result1 == nil
+//@   ensures [storage] space == ir.SpaceStorage ==> result0 == 12 && result1 == nil
+//@   ensures [push-constant] space == ir.SpacePushConstant ==> result0 == 9 && result1 == nil
+//@   ensures [handle] space == ir.SpaceHandle ==> result0 == 0 && result1 == nil
+//@   pure
+//@   nopanic
